@@ -1365,7 +1365,7 @@ class Malformed(Family):
         if k in ("subset-migrations", "union-migrations"):
             return obs["nmig"] > 0
         if k == "union-maplen":
-            return True
+            return len(case["mapping"]) != n      # a mapping of the right length is not malformed
         if k == "union-badmap":
             return any(m >= n or m < NULL for m in case["mapping"])
         return False
